@@ -25,6 +25,7 @@ fn kind<T, E>(r: &Option<Result<T, E>>) -> &'static str {
 fn flag(b: bool) -> String { s(if b { "1" } else { "0" }) }
 
 pub fn run(key: &str, a: &[String], out: &mut Out) {
+    out.begin(key, a);
     match key {
         "C12.mem" => {
             let t = parse_triples(&a[0]);
